@@ -549,6 +549,21 @@ class Tr:
             fn.tables.append("/-- the dict `%s` -/\ndef %s : CmpVal → Except Err CmpVal\n%s\n" % (s.targets[0].id, name, rows))
             fn.dicts[s.targets[0].id] = name
             return self.block(rest, env, fall)
+        if isinstance(s, ast.Assign) and len(s.targets) == 1 and isinstance(s.targets[0], ast.Tuple) \
+                and all(isinstance(e, ast.Name) for e in s.targets[0].elts):
+            # a, b = pair  /  a, _, b = triple
+            t, ty, pure = self.expr(s.value, env)
+            names = [e.id for e in s.targets[0].elts]
+            comp = {"StrPair": ["Str", "Str"], "Str3": ["Str", "Str", "Str"]}.get(ty)
+            if comp is None or len(comp) != len(names):
+                raise Unsupported("assignment " + _src(s))
+            env2 = dict(env)
+            for n, cty in zip(names, comp):
+                env2[n] = cty
+            pat = "(" + ", ".join(names) + ")"
+            if pure:
+                return "let %s := %s\n" % (pat, t) + self.block(rest, env2, fall)
+            return "%s >>= fun %s =>\n%s" % (t, pat, self.block(rest, env2, fall))
         if isinstance(s, ast.Assign):
             targets = s.targets
             if rest and isinstance(rest[-1], ast.Raise) and all(isinstance(x, (ast.Assign, ast.Raise)) for x in rest):
@@ -575,10 +590,12 @@ class Tr:
                     lets = ""
                     for n in names:
                         nty = self.var_types.get(n)
-                        if nty not in ("ConOpt", "Cmp"):
+                        if env.get(n) == "Str" or nty == "StrOpt":
+                            nty = "StrOpt"
+                        if nty not in ("ConOpt", "Cmp", "StrOpt"):
                             raise Unsupported("None assigned to %s of type %s" % (n, nty))
                         env2[n] = nty
-                        lets += "let %s : %s := %s\n" % (n, LEAN_TYPE[nty], "none" if nty == "ConOpt" else "CmpVal.pyNone")
+                        lets += "let %s : %s := %s\n" % (n, LEAN_TYPE[nty], "CmpVal.pyNone" if nty == "Cmp" else "none")
                     return lets + self.block(rest, env2, fall)
                 lets = ""
                 first = names[0]
@@ -594,6 +611,10 @@ class Tr:
                         env2[n] = ty2
                         lets += "let %s : %s := %s\n" % (n, LEAN_TYPE[ty2], val)
                     return lets + self.block(rest, env2, fall)
+                if len(names) == 1 and ty == "Str" and self.optional_after.get(first):
+                    env2[first] = "StrOpt"
+                    inner = self.block(rest, env2, fall)
+                    return "%s >>= fun %s_ =>\nlet %s : Option (List Char) := some %s_\n%s" % (t, first, first, first, inner)
                 if len(names) == 1:
                     env2[first] = ty2
                     inner = self.block(rest, env2, fall)
@@ -679,7 +700,7 @@ class Tr:
         captured = [n for n in env if n not in state]
         sty = " × ".join(LEAN_TYPE[env[n]] for n in state) or "Unit"
         stpat = "(" + ", ".join(state) + ")" if len(state) > 1 else (state[0] if state else "_st")
-        item_ty = {"ConList": "Con", "PairList": "Pair", "VerList": "Ver", "VerListList": "VerList"}[ity]
+        item_ty = {"ConList": "Con", "PairList": "Pair", "VerList": "Ver", "VerListList": "VerList", "StrList": "Str"}[ity]
         env_b = dict(env)
         pre = ""
         if isinstance(s.target, ast.Tuple):
@@ -687,7 +708,7 @@ class Tr:
                 vty = self.var_types.get(e.id, "Con")
                 env_b[e.id] = vty
                 pre += "let %s : %s := %s\n" % (e.id, LEAN_TYPE[vty], ("some item.%d" if vty == "ConOpt" else "item.%d") % (i + 1))
-        elif item_ty in ("Ver", "VerList"):
+        elif item_ty in ("Ver", "VerList", "Str"):
             env_b[s.target.id] = item_ty
             pre += "let %s : %s := item\n" % (s.target.id, LEAN_TYPE[item_ty])
         else:
@@ -911,6 +932,18 @@ def translate_function(fdef, lean_name, params, ret, calls, class_defaults=None,
     tr = (tr_class or Tr)(fn)
     tr.class_defaults = class_defaults or {}
     tr.var_types = _var_types(fdef, params)
+    # variables that an `if/else` assigns None in one branch and a value in the other: the value is wrapped in `some`
+    tr.optional_after = {}
+    for n in ast.walk(fdef):
+        if isinstance(n, ast.If) and n.orelse:
+            def assigned_none(stmts):
+                return {t.id for st in stmts if isinstance(st, ast.Assign) and isinstance(st.value, ast.Constant) and st.value.value is None
+                        for t in st.targets if isinstance(t, ast.Name)}
+            def assigned_val(stmts):
+                return {t.id for st in stmts if isinstance(st, ast.Assign) and not (isinstance(st.value, ast.Constant) and st.value.value is None)
+                        for t in st.targets if isinstance(t, ast.Name)}
+            for v in (assigned_none(n.body) & assigned_val(n.orelse)) | (assigned_none(n.orelse) & assigned_val(n.body)):
+                tr.optional_after[v] = True
     tr.rho = LEAN_TYPE[ret]
     tr.depth = 0
     env = dict(params)
